@@ -25,6 +25,7 @@ CLAIMED = {
  "C10": func("inv_mod / inv_odd_mod / InvMod / inv_mod2k(_vartime, k exhaustive at <= 4 limbs) / Inverter::invert(_vartime) / SafeGcdInverter with adjuster / Int inversion / Montgomery inv, invert(_vartime) and precomputed inverters in runtime, boxed and compile-time (bank) forms, and gcd / gcd_vartime on Uint, Odd<Uint>, Int, BoxedUint: some exactly when gcd(a,m)=1, a*x = 1 (mod m), x < m, ct == vartime, precomputed == one-shot, const == runtime == boxed; moduli primes, composites, 2^k, s*2^k, 1, 2^BITS-1 and operands built to share odd factors / only the factor 2 / many trailing zeros.", "DESIGN.md §4 C10"),
  "C13": func("checked/overflowing/wrapping add, sub, neg, split/widening/checked multiplication (Int x Int, Int x Uint, right form; equal and mixed widths), squares, new_from_abs_sign / abs_sign / abs, sign and MIN/MAX predicates, resize between all width pairs, from_i8..from_i128 and operators / Checked / Wrapping wrappers against BigInt two's-complement semantics; operands at MIN, MIN+1, -1, 0, 1, MAX, products constructed to land on +-2^(BITS-1), negative zero.", "DESIGN.md §4 C13"),
  "C14": func("all signed division flavours (truncating, flooring, normalized remainder; signed and unsigned divisors; ct and vartime; equal and mixed widths; operators, assigning forms, Wrapping, DivVartime, CheckedDiv) over the sign x exactness grid incl. |n|<|d|, d=+-1, n=MIN, d=MIN, MIN/-1 and zero divisors: quotient and remainder against BigInt truncated/floored division, and n = q*d + r, |r| < |d| and the remainder sign convention recomputed from the RETURNED values; none / documented panic exactly for d = 0 and MIN / -1.", "DESIGN.md §4 C14"),
+ "C20": func("sqrt / sqrt_vartime / wrapping_sqrt(_vartime) / checked_sqrt(_vartime) / SquareRoot on Uint (1,2,3,4,8,16 limbs) and BoxedUint (1..=20 limbs): s^2 <= x < (s+1)^2 against BigUint, checked forms some iff perfect square, result precision; inputs t^2-1, t^2, t^2+1 for structured t, every 2^k and 2^k+-1, MAX, odd bit lengths near the precision and a Newton worst-case search guided by an oracle-side model of the iteration.", "DESIGN.md §4 C20"),
 }
 
 checks = []
